@@ -28,6 +28,10 @@ def base_cmd(extra_z=()):
     cmd = [
         "cargo", "kani", "--lib", "--features", FEATURES, "--target-dir", TARGET,
         "-Z", "function-contracts", "-Z", "stubbing", "-Z", "unstable-options",
+        # Kani by default re-asserts the contract of every contracted callee at every call in every harness
+        # (measured: a 128-bit `%` per field operation, minutes per harness). Contracts are proved by their own
+        # proof_for_contract units and used through stub_verified; elsewhere the callee's body is executed.
+        "--no-assert-contracts",
     ]
     for z in extra_z:
         cmd += ["-Z", z]
@@ -182,8 +186,10 @@ def playback_print(harness, log_path, harness_timeout=900):
         lf.flush()
         subprocess.run(cmd, cwd=CRATE, env=env(), stdout=lf, stderr=subprocess.STDOUT)
     log = open(log_path, errors="replace").read()
-    m = re.search(r"```\s*\n(.*?#\[test\].*?)```", log, re.S)
-    if not m:
-        m = re.search(r"(///[^\n]*\n)?#\[test\]\s*\nfn kani_concrete_playback.*?\n}\n", log, re.S)
-        return (m.group(0) if m else None), log
-    return m.group(1), log
+    tests = re.findall(r"```\s*\n(.*?)```", log, re.S)
+    tests = [t for t in tests if "#[test]" in t]
+    if not tests:
+        return None, log
+    # Kani prints one test per satisfied cover and one per failed check: prefer a failed check
+    noncover = [t for t in tests if not re.search(r"Check for `cover`", t)]
+    return (noncover or tests)[0], log
